@@ -8,15 +8,15 @@
   What follows the Go code (read from /repo, see the comment of each definition):
     * the byte layout (`enc`)                         — `WriteTo` of every type;
     * the announced size (`size`)                     — `BinarySize` of every type, INCLUDING
-      the place where it uses another condition than `WriteTo` (`EvaluationKey`: `Seed != nil`
-      vs `Degree() == 0`, core/rlwe/keys.go:425 vs :456);
+      `EvaluationKey` (seed counted iff present and written, fix C08-G);
     * the decoder (`dec`) over a flat byte list and, generically, over any byte source
       (`decG`), e.g. a stream delivered in chunks (`decC`).
-  What is the *specification* and not the code (the harness probes test the code against it):
-    * `dec` has no receiver argument: the decoded value is a function of the bytes alone
-      (the Go `ReadFrom` methods decode *into* an existing object);
-    * fixed-width blocks are read with read-full semantics (Go: one `Read` call);
-    * running out of input is `none` (Go: sometimes a panic / unbounded recursion).
+  The model follows /repo with the fixes /verif/fixes/C08-*.diff applied:
+    * `dec` has no receiver argument; the Go `ReadFrom` methods decode *into* an existing
+      object, which `decInto` models — and proves irrelevant for every lattigo format;
+    * fixed-width blocks are read with read-full semantics (`io.ReadFull`, fix C08-B/C);
+    * running out of input is `none` (an error; fix C08-A removed the unbounded recursion,
+      C08-H/I the index panics); a presence byte other than 0/1 is `none` (fix C08-I3).
   The receiver-dependent behaviour of the Go decoders (state of the object decoded INTO
   leaking into the result) is modelled separately by `decInto` (section "The Go decoders
   decode into a receiver" below; theorems in `Proofs/CodecRecv.lean`).
@@ -91,6 +91,22 @@ def hexBound : HexMode → Nat
   | .byte => 256
   | _ => 2
 
+/-- what a length-prefixed sequence is on the Go side -/
+inductive VecKind where
+  /-- `structs.Vector` / `structs.Matrix` (`u64` count): receiver elements are reused as the
+      receivers of the elements; the count is checked against the unread bytes when they are
+      known (`*buffer.Buffer`) before `make` -/
+  | slice
+  /-- `structs.Map` (`u32` count): the decoded entries REPLACE the receiver's entries, values
+      are decoded into fresh objects, nothing is allocated ahead of the data -/
+  | map
+  /-- a Go map whose decoder keeps the receiver's entries that are not overwritten
+      (`structs.Map.ReadFrom` before the fix C08-K; no lattigo format uses it any more) -/
+  | mapKeep
+  /-- length-prefixed opaque block (`rlwe.Parameters`: `u32` length, at most 2^20) -/
+  | block
+  deriving DecidableEq
+
 /-! ## Format descriptions -/
 
 /-- Description of a wire format. -/
@@ -108,11 +124,11 @@ inductive Fmt where
   /-- `a` then `b` -/
   | pair (a b : Fmt) : Fmt
   /-- `w`-byte element count, then the elements (`structs.Vector/Matrix`: `w = 8`;
-      `structs.Map`: `w = 4`, element = `(u64 key, value)`). `merge` only matters for
-      `decInto`: `true` = Go map (decoded entries are added to the receiver's entries),
-      `false` = Go slice (receiver elements are reused as receivers of the elements). -/
-  | vec (merge : Bool) (w : Nat) (f : Fmt) : Fmt
-  /-- presence byte (1 = present), then `f` iff present. The two flags only matter for
+      `structs.Map`: `w = 4`, element = `(u64 key, value)`). The kind only matters for
+      `decInto` and `allocs`. -/
+  | vec (k : VecKind) (w : Nat) (f : Fmt) : Fmt
+  /-- presence byte (1 = present, 0 = absent, anything else is an error), then `f` iff
+      present. The two flags only matter for
       `decInto`: `keep` = an absent field leaves the receiver's field as it was;
       `reuse` = a present field is decoded into the receiver's existing field. -/
   | opt (keep reuse : Bool) (f : Fmt) : Fmt
@@ -144,8 +160,8 @@ def sumL : List Nat → Nat
   | x :: xs => x + sumL xs
 
 /-- number announced by `BinarySize`. For `tailIf` it follows the Go code of
-    `EvaluationKey.BinarySize`: the suffix is counted iff it is *present in the object*
-    (`Seed != nil`), not iff it is *written* (`p x`). -/
+    `EvaluationKey.BinarySize` (after fix C08-G): the suffix is counted iff it is present in
+    the object AND written (`Seed != nil && IsCompressed()`). -/
 def size : Fmt → Val → Nat
   | .unit, _ => 0
   | .uint w, _ => w
@@ -156,8 +172,12 @@ def size : Fmt → Val → Nat
   | .vec _ w f, .list vs => w + sumL (vs.map (size f))
   | .opt _ _ _, .none => 1
   | .opt _ _ f, .some v => 1 + size f v
-  | .tailIf _ a _ b, .pair x y => size a x + (match y with | .some s => size b s | _ => 0)
+  | .tailIf _ a p b, .pair x y =>
+      size a x + (if p x then (match y with | .some s => size b s | _ => 0) else 0)
   | _, _ => 0
+
+/-- largest opaque block the decoder accepts (`rlwe.Parameters.ReadFrom`, fix C08-C). -/
+def blockMax : Nat := 1048576
 
 /-! ## Decoder, generic in the byte source -/
 
@@ -210,13 +230,15 @@ def decG {σ : Type} (rd : Nat → σ → Option (List Nat × σ)) : Fmt → σ 
       match decG rd b s1 with
       | none => none
       | some (y, s2) => some (.pair x y, s2)
-  | .vec _ w f, s =>
+  | .vec k w f, s =>
     match rd w s with
     | none => none
     | some (bs, s1) =>
-      match decN (decG rd f) (leVal bs) s1 with
-      | none => none
-      | some (vs, s2) => some (.list vs, s2)
+      if k = .block ∧ blockMax < leVal bs then none
+      else
+        match decN (decG rd f) (leVal bs) s1 with
+        | none => none
+        | some (vs, s2) => some (.list vs, s2)
   | .opt _ _ f, s =>
     match rd 1 s with
     | some ([b], s1) =>
@@ -224,7 +246,8 @@ def decG {σ : Type} (rd : Nat → σ → Option (List Nat × σ)) : Fmt → σ 
         match decG rd f s1 with
         | none => none
         | some (v, s2) => some (.some v, s2)
-      else some (.none, s1)
+      else if b = 0 then some (.none, s1)
+      else none
     | _ => none
   | .tailIf _ a p b, s =>
     match decG rd a s with
@@ -269,23 +292,19 @@ def decMany (f : Fmt) : Nat → List Nat → Option (List Val × List Nat) := de
   what they do with the previous content `r` of that object (value tree of the receiver
   before the call; `.unit` stands for a freshly allocated zero object):
     * scalars, opaque blocks, `byte`/`flag` hex fields: overwritten;
-    * `sticky` hex fields: set when the input says 1, otherwise LEFT AS THEY WERE;
-    * slices (`vec false`): if the receiver has at least as many elements they are reused
-      as receivers of the elements, otherwise new elements (capacity is identified with
-      length; this makes no observable difference for the lattigo types, whose slice
-      elements are all receiver-independent);
-    * maps (`vec true`): decoded entries are stored into the receiver's map — entries that
-      are not overwritten STAY (`structs.Map.ReadFrom`, utils/structs/map.go:104-125);
+    * `sticky` hex fields: set when the input says 1, otherwise left as they were;
+    * `slice`/`block`: if the receiver has at least as many elements they are reused as
+      receivers of the elements, otherwise new elements (capacity is identified with length);
+    * `map`: entries decoded into fresh values, the receiver's entries are dropped;
+      `mapKeep`: the receiver's entries that are not overwritten stay;
     * `opt keep reuse`: absent ⇒ the receiver's field is kept iff `keep`; present ⇒ decoded
       into the receiver's field iff `reuse`, else into a fresh object;
-    * `tailIf keep`: the suffix field is only assigned when the suffix is read
-      (`EvaluationKey.ReadFrom`, core/rlwe/keys.go:502-510), otherwise it STAYS (iff `keep`).
-  The flags `sticky` / `merge` / `keep` / `reuse` record the code AS IT IS in /repo. If one of
-  the receiver-leak fixes is committed there, flip the corresponding flag in the type table
-  below (`ctMeta`: `.sticky` → `.flag`; `optFlag`: `.opt false true`; `optKeepFresh`:
-  `.opt false false`; `mapOf`: `.vec false`; `evalKey`: `.tailIf false`) so that the `into`
-  tie lines keep following the code; the theorems are stated for all flag values.
-  `dec` is `decInto` with a fresh receiver (`Proofs/CodecRecv.lean: decInto_fresh`). -/
+    * `tailIf keep`: when the suffix is not read the receiver's suffix field stays iff `keep`.
+  The leaky flavours (`sticky`, `mapKeep`, `keep = true`) describe the decoders as they were
+  before the fixes C08-D/E/F/J/K/L; the formats of the type table below use the flavours of
+  the FIXED code, all of which are `Clean`, so that `decInto f r bs = dec f bs` for every
+  receiver (`Proofs/CodecRecv.lean: decInto_clean`, `Props/C08.lean: recv_indep`). The `into`
+  tie lines check this model against the real decoders on dirty receivers. -/
 
 def fstR : Val → Val
   | .pair a _ => a
@@ -367,15 +386,20 @@ def decInto : Fmt → Val → List Nat → Option (Val × List Nat)
       match decInto b (sndR r) s1 with
       | none => none
       | some (y, s2) => some (.pair x y, s2)
-  | .vec merge w f, r, s =>
+  | .vec k w f, r, s =>
     match readFlat w s with
     | none => none
     | some (bs, s1) =>
       let n := leVal bs
-      if merge then
+      if k = .block ∧ blockMax < n then none
+      else if k = .mapKeep then
         match decNI (decInto f) [] n s1 with
         | none => none
         | some (vs, s2) => some (.list (mergeMap (asList r) vs), s2)
+      else if k = .map then
+        match decNI (decInto f) [] n s1 with
+        | none => none
+        | some (vs, s2) => some (.list vs, s2)
       else
         match decNI (decInto f) (if n ≤ (asList r).length then asList r else []) n s1 with
         | none => none
@@ -387,7 +411,8 @@ def decInto : Fmt → Val → List Nat → Option (Val × List Nat)
         match decInto f (if reuse then optInner r else .unit) s1 with
         | none => none
         | some (v, s2) => some (.some v, s2)
-      else some (if keep then asOpt r else .none, s1)
+      else if b = 0 then some (if keep then asOpt r else .none, s1)
+      else none
     | _ => none
   | .tailIf keep a p b, r, s =>
     match decInto a (fstR r) s with
@@ -404,19 +429,22 @@ def Clean : Fmt → Prop
   | .hex2 m => m ≠ .sticky
   | .framed _ f _ => Clean f
   | .pair a b => Clean a ∧ Clean b
-  | .vec merge _ f => merge = false ∧ Clean f
+  | .vec k _ f => k ≠ .mapKeep ∧ Clean f
   | .opt keep _ f => keep = false ∧ Clean f
   | .tailIf keep a _ b => keep = false ∧ Clean a ∧ Clean b
   | _ => True
 
 /-! ## What the Go decoder allocates
 
-  `structs.Vector/Matrix.ReadFrom` call `make([]T, size)` and `structs.Map.ReadFrom` calls
-  `make(Map, size)` with the count just read, BEFORE reading any element and without
-  comparing it with the input that is left (utils/structs/vector.go:177, matrix.go:134,
-  map.go:111; core/rlwe/params.go:715 for the JSON block). `allocs f bs` lists these
-  requests (in elements) in the order the decoder issues them on input `bs`, up to the
-  point where it stops. -/
+  `allocs f bs` lists the slice allocations (`make`, in elements) that the Go decoder issues on
+  input `bs` when the number of unread bytes is known (`UnmarshalBinary`, i.e. `ReadFrom` on a
+  `*buffer.Buffer`), in order, up to the point where it stops:
+    * `slice` (`structs.Vector/Matrix.ReadFrom`, after fix C08-P): the count is compared with
+      the unread bytes first; a larger count is an error BEFORE `make`;
+    * `map` (`structs.Map.ReadFrom`, after fix C08-K): no allocation ahead of the data;
+    * `block` (`rlwe.Parameters.ReadFrom`, after fix C08-C): at most 2^20 bytes.
+  On a `bufio.Reader` the unread bytes are unknown and the `slice` check cannot be made: that
+  residue is the known finding `C08/structs.Vector.ReadFrom/unchecked-length` (probes only). -/
 
 def allocsN (d : List Nat → Option (Val × List Nat)) (al : List Nat → List Nat) :
     Nat → List Nat → List Nat
@@ -435,10 +463,16 @@ def allocs : Fmt → List Nat → List Nat
     allocs a s ++ (match dec a s with
       | none => []
       | some (_, s1) => allocs b s1)
-  | .vec _ w f, s =>
+  | .vec k w f, s =>
     match readFlat w s with
     | none => []
-    | some (bs, s1) => leVal bs :: allocsN (dec f) (allocs f) (leVal bs) s1
+    | some (bs, s1) =>
+      match k with
+      | .slice =>
+        if leVal bs ≤ s1.length then leVal bs :: allocsN (dec f) (allocs f) (leVal bs) s1 else []
+      | .block =>
+        if leVal bs ≤ blockMax then leVal bs :: allocsN (dec f) (allocs f) (leVal bs) s1 else []
+      | _ => allocsN (dec f) (allocs f) (leVal bs) s1
   | .opt _ _ f, s =>
     match readFlat 1 s with
     | some ([b], s1) => if b = 1 then allocs f s1 else []
@@ -446,14 +480,56 @@ def allocs : Fmt → List Nat → List Nat
   | .tailIf _ a _ _, s => allocs a s
   | _, _ => []
 
-/-- the element counts actually present in a value, in wire order. -/
+/-- the element counts of the slices and blocks present in a value, in wire order. -/
 def lens : Fmt → Val → List Nat
   | .framed _ f _, v => lens f v
   | .pair a b, .pair x y => lens a x ++ lens b y
-  | .vec _ _ f, .list vs => vs.length :: (vs.map (lens f)).flatten
+  | .vec k _ f, .list vs =>
+    match k with
+    | .slice | .block => vs.length :: (vs.map (lens f)).flatten
+    | _ => (vs.map (lens f)).flatten
   | .opt _ _ f, .some x => lens f x
   | .tailIf _ a _ _, .pair x _ => lens a x
   | _, _ => []
+
+/-- a lower bound of the length of every encoding. -/
+def minSize : Fmt → Nat
+  | .unit => 0
+  | .uint w => w
+  | .raw n => n
+  | .hex2 _ => 2
+  | .framed pre f post => pre.length + minSize f + post.length
+  | .pair a b => minSize a + minSize b
+  | .vec _ w _ => w
+  | .opt _ _ _ => 1
+  | .tailIf _ a _ _ => minSize a
+
+/-- every slice element takes at least one byte and every block fits `blockMax`
+    (true of all lattigo formats; needed because the Go check "count ≤ unread bytes" would
+    reject an honest slice of zero-size elements). -/
+def PosElems : Fmt → Prop
+  | .framed _ f _ => PosElems f
+  | .pair a b => PosElems a ∧ PosElems b
+  | .vec k _ f => PosElems f ∧ (k = .slice → 1 ≤ minSize f)
+  | .opt _ _ f => PosElems f
+  | .tailIf _ a _ b => PosElems a ∧ PosElems b
+  | _ => True
+
+/-! ## Shapes -/
+
+/-- `Shape f v`: `v` has the constructors `f` expects and its opaque blocks have the announced
+    length. No range condition: enough for `size_exact`. -/
+def Shape : Fmt → Val → Prop
+  | .unit, _ => True
+  | .uint _, v => ∃ n, v = .num n
+  | .raw n, v => ∃ bs, v = .bytes bs ∧ bs.length = n
+  | .hex2 _, v => ∃ n, v = .num n
+  | .framed _ f _, v => Shape f v
+  | .pair a b, v => ∃ x y, v = .pair x y ∧ Shape a x ∧ Shape b y
+  | .vec _ _ f, v => ∃ vs, v = .list vs ∧ ∀ x ∈ vs, Shape f x
+  | .opt _ _ f, v => v = .none ∨ ∃ x, v = .some x ∧ Shape f x
+  | .tailIf _ a _ b, v => ∃ x y, v = .pair x y ∧ Shape a x ∧
+      (y = .none ∨ ∃ s, y = .some s ∧ Shape b s)
 
 /-! ## Well-typed values -/
 
@@ -468,7 +544,8 @@ def WT : Fmt → Val → Prop
   | .hex2 m, v => ∃ n, v = .num n ∧ n < hexBound m
   | .framed _ f _, v => WT f v
   | .pair a b, v => ∃ x y, v = .pair x y ∧ WT a x ∧ WT b y
-  | .vec _ w f, v => ∃ vs, v = .list vs ∧ vs.length < 256 ^ w ∧ ∀ x ∈ vs, WT f x
+  | .vec k w f, v => ∃ vs, v = .list vs ∧ vs.length < 256 ^ w ∧
+      (k = .block → vs.length ≤ blockMax) ∧ ∀ x ∈ vs, WT f x
   | .opt _ _ f, v => v = .none ∨ ∃ x, v = .some x ∧ WT f x
   | .tailIf _ a p b, v => ∃ x y, v = .pair x y ∧ WT a x ∧
       ((p x = true ∧ ∃ s, y = .some s ∧ WT b s) ∨ (p x = false ∧ y = .none))
@@ -481,7 +558,8 @@ def wtb : Fmt → Val → Bool
   | .hex2 m, .num n => decide (n < hexBound m)
   | .framed _ f _, v => wtb f v
   | .pair a b, .pair x y => wtb a x && wtb b y
-  | .vec _ w f, .list vs => decide (vs.length < 256 ^ w) && vs.all (wtb f)
+  | .vec k w f, .list vs =>
+      decide (vs.length < 256 ^ w) && decide (k = .block → vs.length ≤ blockMax) && vs.all (wtb f)
   | .opt _ _ _, .none => true
   | .opt _ _ f, .some x => wtb f x
   | .tailIf _ a p b, .pair x y =>
@@ -505,21 +583,21 @@ def u64 : Fmt := .uint 8
 def bytesN (n : Nat) : Fmt := .raw n
 
 /-- `structs.Vector[T]` (utils/structs/vector.go:86): `u64 len` then the elements. -/
-def vecOf (f : Fmt) : Fmt := .vec false 8 f
+def vecOf (f : Fmt) : Fmt := .vec .slice 8 f
 /-- `structs.Matrix[T]` (utils/structs/matrix.go:72): `u64 rows` then `rows × Vector[T]`. -/
-def matOf (f : Fmt) : Fmt := .vec false 8 (.vec false 8 f)
+def matOf (f : Fmt) : Fmt := .vec .slice 8 (.vec .slice 8 f)
 /-- `structs.Map[K,T]` (utils/structs/map.go:44): `u32 count` then `(u64 key, T)` in
     ascending key order. -/
-def mapOf (f : Fmt) : Fmt := .vec true 4 (.pair u64 f)
-/-- optional field written as a presence byte; Go decoder: absent ⇒ receiver's field kept,
-    present ⇒ decoded into the receiver's existing field (`Element.MetaData`,
-    `MemEvaluationKeySet.RelinearizationKey/GaloisKeys`). -/
-def optFlag (f : Fmt) : Fmt := .opt true true f
+def mapOf (f : Fmt) : Fmt := .vec .map 4 (.pair u64 f)
+/-- optional field written as a presence byte; Go decoder (after fixes C08-E, C08-J):
+    absent ⇒ the receiver's field is set to nil, present ⇒ decoded into the receiver's
+    existing field (`Element.MetaData`, `MemEvaluationKeySet.RelinearizationKey/GaloisKeys`). -/
+def optFlag (f : Fmt) : Fmt := .opt false true f
 /-- optional field that the Go decoder resets (`bootstrapping.readEvkKey`). -/
 def optReset (f : Fmt) : Fmt := .opt false false f
-/-- optional field kept when absent, decoded into a fresh object when present
-    (`bootstrapping.EvaluationKeys.MemEvaluationKeySet`). -/
-def optKeepFresh (f : Fmt) : Fmt := .opt true false f
+/-- `bootstrapping.EvaluationKeys.MemEvaluationKeySet`: nil when absent (after fix C08-L),
+    decoded into a fresh object when present. -/
+def optKeepFresh (f : Fmt) : Fmt := .opt false false f
 
 /-- `ring.Poly` (ring/poly.go:113) = `Matrix[uint64]`, `level+1` rows of `N` words. -/
 def poly : Fmt := matOf u64
@@ -555,7 +633,7 @@ def ptMeta : Fmt :=
 /-- `rlwe.CiphertextMetaData` (core/rlwe/metadata.go:350). Value: `(isNTT, isMontgomery)`. -/
 def ctMeta : Fmt :=
   .framed (strBytes "{\"IsNTT\":\"0x")
-    (.pair (.hex2 .sticky) (.framed (strBytes "\",\"IsMontgomery\":\"0x") (.hex2 .sticky) []))
+    (.pair (.hex2 .flag) (.framed (strBytes "\",\"IsMontgomery\":\"0x") (.hex2 .flag) []))
     (strBytes "\"}")
 
 /-- `rlwe.MetaData` (core/rlwe/metadata.go:68). -/
@@ -580,8 +658,8 @@ def secretKey : Fmt := polyQP
 def gadget : Fmt := .pair u64 (matOf vectorQP)
 
 /-- `GadgetCiphertext.Degree() == 0` (core/rlwe/gadgetciphertext.go:46,
-    `len(ct.Value[0][0]) - 1`). The Go code panics when `Value` or `Value[0]` is empty;
-    the model answers `false` there. -/
+    `len(ct.Value[0][0]) - 1`), as `EvaluationKey.IsCompressed` computes it after fix C08-H:
+    `false` when `Value` or `Value[0]` is empty. -/
 def gadgetDegreeZero : Val → Bool
   | .pair _ (.list (.list (.list [_] :: _) :: _)) => true
   | _ => false
@@ -590,7 +668,7 @@ def seedLen : Nat := 32
 
 /-- `rlwe.EvaluationKey` (core/rlwe/keys.go:443): gadget ciphertext, then the 32-byte
     seed iff the key is compressed (degree 0). -/
-def evalKey : Fmt := .tailIf true gadget gadgetDegreeZero (.raw seedLen)
+def evalKey : Fmt := .tailIf false gadget gadgetDegreeZero (.raw seedLen)
 def relinKey : Fmt := evalKey
 /-- `rlwe.GaloisKey` (core/rlwe/keys.go:628). -/
 def galoisKey : Fmt := .pair u64 (.pair u64 evalKey)
@@ -610,7 +688,7 @@ def btpKeys : Fmt :=
       (optKeepFresh evalKeySet))))))
 
 /-- `rlwe.Parameters` (core/rlwe/params.go:662): `u32 len` then the JSON text (opaque). -/
-def paramsBlock : Fmt := .vec false 4 u8
+def paramsBlock : Fmt := .vec .block 4 u8
 
 /-! multiparty shares -/
 def publicKeyGenShare : Fmt := polyQP                  -- multiparty/keygen_cpk.go:123
